@@ -137,12 +137,15 @@ Fixpoint insert_asc (p : pod) (l : list pod) : list pod :=
   end.
 Definition sort_asc (l : list pod) : list pod := fold_left (fun acc p => insert_asc p acc) l [].
 
-(* first unhealthy pod: strictly smaller ordinal replaces, so the first one wins ties *)
+(* first unhealthy pod: the first candidate is taken whatever its ordinal (repaired: the sentinel MaxInt32 used to
+   leave the pointer nil for a pod with that very ordinal); after that a strictly smaller ordinal replaces, so the
+   first one wins ties *)
 Definition first_unhealthy (replicas : list (option pod)) (condemned : list pod) : option pod :=
   let cands := flat_map (fun e => match e with Some p => if isHealthy p then [] else [p] | None => [] end) replicas
                ++ filter (fun p => negb (isHealthy p)) condemned in
   fst (fold_left (fun (acc : option pod * Z) p =>
-                    if getOrdinal p <? snd acc then (Some p, getOrdinal p) else acc)
+                    if match fst acc with None => true | Some _ => false end || (getOrdinal p <? snd acc)
+                    then (Some p, getOrdinal p) else acc)
                  cands (None, max_i32)).
 
 Definition same_pod (a : pod) (b : option pod) : bool :=
